@@ -1,5 +1,7 @@
 pub mod c01;
 pub mod c02;
+pub mod c03;
+pub mod c04;
 pub mod c10;
 pub mod c11;
 pub mod c12;
@@ -15,6 +17,8 @@ pub fn lookup(id: &str) -> Option<CheckFn> {
     Some(match id {
         "C01" => c01::run,
         "C02" => c02::run,
+        "C03" => c03::run,
+        "C04" => c04::run,
         "C10" => c10::run,
         "C11" => c11::run,
         "C12" => c12::run,
@@ -29,6 +33,7 @@ pub fn lookup(id: &str) -> Option<CheckFn> {
 pub fn hang_case(id: &str, bytes: &[u8]) {
     match id {
         "C16" => c16::hang_case(bytes),
+        "C04" => c04::hang_case(bytes),
         _ => {},
     }
 }
